@@ -80,6 +80,12 @@ type Recycle struct {
 	// Follow: what happens to the new job while it is pending: "timer" (nothing),
 	// "run" (RunJob), "cancel" (CancelJob).
 	Follow string `json:"follow"`
+	// OldDue (one-off old job only): "" the old job is cancelled clearly before
+	// its runtime; "timer" the cancel lands on the old job's runtime (so the old
+	// job's timer may win against the cancel signal); "ctx" the old job's parent
+	// context is cancelled right after the name has been scheduled again (so the
+	// old job goroutine may see that instead of the cancel signal).
+	OldDue string `json:"old_due,omitempty"`
 }
 
 // Case is a program.
@@ -164,7 +170,7 @@ func genCase(t *rapid.T, mode string) Case {
 	c.Periodic = rapid.IntRange(0, 9).Draw(t, "periodic") < 3
 	c.JobDurUs = rapid.SampledFrom([]int64{0, 0, 0, 100, 500, 1500}).Draw(t, "jobDur")
 	c.Resched = rapid.Bool().Draw(t, "resched")
-	if rapid.IntRange(0, 19).Draw(t, "recycle") < 3 {
+	if rapid.SampledFrom([]bool{false, false, false, false, true, false, false}).Draw(t, "recycle") {
 		// cancel + immediate re-use of the name; the old job is either a one-off job
 		// that is pending with its runtime clearly ahead, or a periodic job with an
 		// instance in progress
@@ -181,6 +187,18 @@ func genCase(t *rapid.T, mode string) Case {
 			c.TicksUs = []int64{50000}
 			if mode == "M2" {
 				c.Recycle.AtUs = rapid.SampledFrom([]int64{0, 50, 500, 2000}).Draw(t, "at")
+			}
+			switch rapid.SampledFrom([]string{"", "", "", "timer", "ctx"}).Draw(t, "oldDue") {
+			case "timer":
+				c.Recycle.OldDue = "timer"
+				if mode == "M1" {
+					c.TicksUs = []int64{rapid.SampledFrom([]int64{-1000, 0}).Draw(t, "oldFirst")}
+				} else {
+					c.Recycle.AtUs = rapid.SampledFrom([]int64{1000, 2000}).Draw(t, "oldAt")
+					c.TicksUs = []int64{c.Recycle.AtUs}
+				}
+			case "ctx":
+				c.Recycle.OldDue = "ctx"
 			}
 		}
 		return c
@@ -264,7 +282,10 @@ func sanitise(c *Case) {
 		if c.Periodic && c.JobDurUs < 1000 {
 			c.JobDurUs = 1000
 		}
-		if !c.Periodic && c.TicksUs[0] < 50000 {
+		if c.Periodic {
+			c.Recycle.OldDue = ""
+		}
+		if !c.Periodic && c.Recycle.OldDue != "timer" && c.TicksUs[0] < 50000 {
 			c.TicksUs[0] = 50000
 		}
 	}
@@ -726,6 +747,13 @@ func runRep(c *Case, base int, can *canary, leaked map[string]bool, leakedSelect
 				}
 				time.Sleep(50 * time.Microsecond)
 			}
+		case c.Mode != "M1" && c.Recycle.OldDue == "timer":
+			at := t0.Add(us(c.Recycle.AtUs))
+			if d := time.Until(at) - 300*time.Microsecond; d > 0 {
+				time.Sleep(d)
+			}
+			for time.Until(at) > 0 {
+			}
 		case c.Mode != "M1" && c.Recycle.AtUs > 0:
 			time.Sleep(us(c.Recycle.AtUs))
 		}
@@ -738,6 +766,9 @@ func runRep(c *Case, base int, can *canary, leaked map[string]bool, leakedSelect
 			at := time.Now().Add(us(c.Recycle.NewOffUs))
 			rc.newRuntime = at.Sub(t0)
 			rc.schedErr = svc.ScheduleJob(bg, "c02", jobName, at, rec2.job)
+			if c.Recycle.OldDue == "ctx" {
+				cancelCtx()
+			}
 		}
 		if rc.skipped == "" && rc.schedErr == nil {
 			// let the cancelled job's goroutine deal with its signal (a periodic job
@@ -1237,7 +1268,7 @@ func judgePeriodic(c *Case, o *obs) []verdict {
 // other: while it is pending the scheduler knows it (listed, its name is taken, it
 // can be run early and cancelled), it runs exactly once unless cancelled, and a
 // cancel clearly before its time means it never runs.
-func judgeRecycle(c *Case, o *obs) []verdict {
+func judgeRecycle(c *Case, o *obs) (vs []verdict) {
 	rc := o.rc
 	if rc == nil || rc.skipped != "" || rc.cancelErr != nil {
 		return nil
@@ -1246,13 +1277,30 @@ func judgeRecycle(c *Case, o *obs) []verdict {
 	// that lands on the runtime may lose against the timer, and what the old job then
 	// does to the table is another matter); a periodic old job must not have reached
 	// the end of its runtimes.
-	if !c.Periodic && o.ops[0].end+margin > o.ticks[0] {
+	class := ""
+	if !c.Periodic && c.Recycle.OldDue != "" {
+		// The old job goroutine may take its timer / parent-context arm instead of
+		// the cancel arm.  Whatever it does with the OLD job is not judged here (the
+		// cancel was not clearly before); what happens to the NEW job is, under
+		// signatures of their own.
+		class = ":after-old-job-" + c.Recycle.OldDue
+	} else if !c.Periodic && o.ops[0].end+margin > o.ticks[0] {
 		return nil
 	}
 	if c.Periodic && o.exhausted {
 		return nil
 	}
-	var vs []verdict
+	if class != "" {
+		defer func() {
+			// consequences of one another: report the first only
+			if len(vs) > 1 {
+				vs = vs[:1]
+			}
+			for i := range vs {
+				vs[i].sig += class
+			}
+		}()
+	}
 	if rc.schedErr != nil {
 		return append(vs, verdict{"name-not-reusable", "CancelJob returned nil but scheduling the name again at once failed: " + rc.schedErr.Error()})
 	}
@@ -1431,6 +1479,9 @@ func labels(c *Case) []string {
 	}
 	if c.Recycle != nil {
 		ls = append(ls, "cancel-then-reschedule-same-name", "cancel-then-reschedule:follow-"+c.Recycle.Follow)
+		if c.Recycle.OldDue != "" {
+			ls = append(ls, "cancel-then-reschedule:old-job-"+c.Recycle.OldDue+"-arm-may-win")
+		}
 	}
 	for _, op := range c.Ops {
 		if op.Ctx != "" {
